@@ -1,6 +1,7 @@
 package main
 
 import (
+	"context"
 	"errors"
 	"fmt"
 	"runtime"
@@ -104,6 +105,12 @@ type apiReplayRec struct {
 // result with exp when check is set. It returns "" or a description of the deviation.
 func runOp(kind string, node *gtree.Node, c *tok.Conc, variant int, exp *apiExp, mdDiff bool) (string, string) {
 	bo := branchOpts(c)
+	var mo []gtree.Option // "mtext" / "mtree": the same operation with the massive option
+	if kind == "mtext" || kind == "mtree" {
+		kind = kind[1:]
+		mo = []gtree.Option{gtree.WithMassive(context.Background())}
+		bo = append(append([]gtree.Option{}, bo...), mo...)
+	}
 	switch kind {
 	case "text":
 		var o real.Outcome
@@ -135,9 +142,9 @@ func runOp(kind string, node *gtree.Node, c *tok.Conc, variant int, exp *apiExp,
 		er := encRoutes[variant%len(encRoutes)]
 		var o real.Outcome
 		if variant%2 == 0 {
-			o = real.OutputRoot(node, er.opt)
+			o = real.OutputRoot(node, append([]gtree.Option{er.opt}, mo...)...)
 		} else {
-			o = real.OutputRootAlias(node, er.opt)
+			o = real.OutputRootAlias(node, append([]gtree.Option{er.opt}, mo...)...)
 		}
 		if exp == nil {
 			return "", ""
